@@ -8,7 +8,10 @@
 EXTENDS Geometry, Topology, Measures, TLC
 
 Range(s) == {s[i] : i \in DOMAIN s}
-Chk(name, cond) == IF cond THEN TRUE ELSE PrintT(<<"CONTRACT-FAIL", name>>) /\ FALSE
+\* The stateless families judge every event on its own, so a failed conjunct does not have to stop the
+\* validation: it is REPORTED with the line number of its event (TLC register 8, set by Trace_Pure) and
+\* the run goes on; ./check turns every reported line into a rejection (KNOWN-FINDING / VIOLATION).
+Chk(name, cond) == IF cond THEN TRUE ELSE PrintT(<<"SOFT-FAIL", TLCGet(8), name>>)
 
 ---------------------------------------------------------------------------
 \* floor(log2 x) for x >= 1, ceil(log2 x) for x >= 1
@@ -107,7 +110,7 @@ Measure(a, r) ==
                                 "inradius(degenerate)", "radius_ratio(degenerate)", "normalized_volume(degenerate)"}))
   /\ \A i \in DOMAIN r.checks :
        IF r.checks[i].ok THEN TRUE
-       ELSE PrintT(<<"CONTRACT-FAIL", "C18." \o r.checks[i].n>>) /\ FALSE
+       ELSE PrintT(<<"SOFT-FAIL", TLCGet(8), "C18." \o r.checks[i].n>>)
 
 \* ---- C17 ------------------------------------------------------------------------
 Pow(b, e) == IF e = 0 THEN 1 ELSE LET RECURSIVE P(_) P(k) == IF k = 0 THEN 1 ELSE b * P(k - 1) IN P(e)
